@@ -193,7 +193,16 @@ def ob_complementary(d, r, mixed=False):
         return ~exact if isinstance(exact, SymBool) else (not exact)
     def witness():
         if not mixed:
-            return []
+            # a complete (trace preserving) family of r generic complex operators: mixed-unitary channel with unequal weights
+            rng = np.random.default_rng(50 + 7 * d + r)
+            w = rng.random(r) + 0.2
+            w = w / w.sum()
+            ks = []
+            for k in range(r):
+                q, _ = np.linalg.qr(rng.normal(size=(d, d)) + 1j * rng.normal(size=(d, d)))
+                ks.append(np.sqrt(w[k]) * q)
+            rho = rng.normal(size=(d, d)) + 1j * rng.normal(size=(d, d))
+            return [{"A": ks, "rho": rho @ rho.conj().T / np.trace(rho @ rho.conj().T).real}]
         # complete families whose first operator is a REAL float array and whose later operators are complex
         p = 0.3
         out = []
@@ -271,8 +280,8 @@ def obligations(tier):
                     continue
                 obs.append(ob_unital_tp(d, r, form))
     for d in [2, 3] + ([4] if T else []):
-        for r in [1, 2, 3]:
-            if d * r <= (12 if T else 9):
+        for r in [1, 2, 3] + ([5] if d == 2 else []) + ([10] if (T and d == 3) else []):     # 5 > d^2 = 4: a non-minimal Kraus family
+            if d * r <= (12 if T else 10) or r > d * d:
                 obs.append(ob_complementary(d, r))
                 if r >= 2:
                     obs.append(ob_complementary(d, r, mixed=True))
